@@ -134,6 +134,13 @@ CLAIMED = {
         "technique": "Rocq proof over an executable phase/effect-log model (invariants of the read-only phases, write/cleanup lemmas, rank-based termination) + differential run of the shoot binary on typed damaged inputs, compared inside Coq",
         "coq_targets": ["Properties/C18.vo", "Corr/FailCorr.vo"],
     },
+    "C09": {
+        "text": "Theorem: every ToX/FromX plan that passes the decidable safety check (guards = embedded-pointer chain of the field read, parents first; allocation list closed under parents and ordered) never dereferences nil, for all well-typed inputs with arbitrary nil patterns, all recursion depths, any user functions and any receiver; nil in/nil out; FromX ignores the receiver's content. The check is evaluated inside Coq on the plans of every sampled pair (all certified); that the analysis yields safe plans for every job is not proved in general. Tied to the code by executing the generated methods on exhaustive nil patterns (k<=6) incl. dirty/zero/nil receivers.",
+        "design_ref": "DESIGN.md section 8, C09; section 13",
+        "note": COMMON_NOTE + "Values are trees (no aliasing between argument and receiver); panics inside user code are outside the property; shoot-new sides (constructors) are covered by findings, not by the no-panic theorem.",
+        "technique": "Rocq proof (typing + path lemmas + induction over statements and recursion depth) of no-panic for certified plans + per-pair certificate evaluation + differential execution on nil-saturated values, compared inside Coq",
+        "coq_targets": ["Properties/C09.vo", "Corr/MapperCorr.vo"],
+    },
 }
 
 NOT_CLAIMED = {}
